@@ -118,7 +118,9 @@ def coq_check_props(prop_id, timeout=1200):
             continue
         elif block is not None:
             block = None
-    pa_names = re.findall(r"^\s*Print Assumptions\s+(\w+)\s*\.", src_nc, flags=re.M)
+    # (qualified names - theorems stated inside a Module of the property file - count under their last component)
+    pa_names = [n.split(".")[-1] for n in
+                re.findall(r"^\s*Print Assumptions\s+([\w.]*\w)\s*\.\s*$", src_nc, flags=re.M)]
     for name, ax in zip(pa_names, printed):
         res["assumptions"][name] = ax
     missing = [t for t in res["theorems"] if t not in pa_names]
